@@ -387,6 +387,12 @@ def run_modules(ctx: Ctx) -> None:
                                     # transform in `axes` coordinates of the target: j -> axes point -> A -> world -> source index
                                     to_axes = _inverse_affine(X)
                                     variants.append(("affine", A.unsqueeze(0), compose(src.w2i(), compose(X, compose(A, compose(to_axes, tg.i2w()))))))
+                                    tv = STensor.symbols("tv", [D])
+                                    Tm = symt.cat([symt.eye(D), tv.unsqueeze(1)], dim=1)
+                                    variants.append(("translation (1, D, 1)", tv.reshape([1, D, 1]),
+                                                     compose(src.w2i(), compose(X, compose(Tm, compose(to_axes, tg.i2w()))))))
+                                    # state: the same module called again without a transform must behave as on its first call
+                                    variants.append(("none, after the other calls", None, base))
                                 for vname, tr, want in variants:
                                     del symt.GRID_SAMPLE_CALLS[:]
                                     if cls == "SampleImage":
